@@ -360,13 +360,15 @@ impl Sparse<f64> {
         if err <= tol && Self::all_finite( x ) { return Ok( 0 ); }
         let mut rho_2 = 1.0;
         let mut iter: usize = 0;
+        let mut fresh = true; // the recurrences start ( or restart ) with this iteration
         while iter < max_iter {
             iter += 1;
             self.identity_preconditioner( &rr, &mut zz );
             let rho_1 = z.dot( &rr );
-            if iter == 1 {
+            if fresh {
                 p = z.clone();
                 pp = zz.clone();
+                fresh = false;
             } else {
                 let beta = rho_1 / rho_2;
                 p = z.clone() + p.clone() * beta;
@@ -391,6 +393,10 @@ impl Sparse<f64> {
                 if itol == 1 { err = r.norm_2() / bnrm; }
                 if itol == 2 { err = z.norm_2() / bnrm; }
                 if err <= tol && Self::all_finite( x ) { return Ok( iter ); }
+                // the directions and the shadow residual belong to the recurrence residual, not to
+                // this one: restart from the residual x really has
+                rr = r.clone();
+                fresh = true;
             }
         }
         Err(err)
@@ -501,12 +507,14 @@ impl Sparse<f64> {
         resid = r.norm_2() / normb;
         if resid <= tol && Self::all_finite( x ) { return Ok( 0 ); }
 
+        let mut fresh = true; // the recurrences start ( or restart ) with this iteration
         for i in 1..=max_iter {
             //z = r; //could have preconditioner here z = M.solve(r);
             self.identity_preconditioner( &r, &mut z );
             rho = r.dot( &z );
-            if i == 1 {
+            if fresh {
                 p = z.clone();
+                fresh = false;
             } else {
                 beta = rho / rho_1;
                 p = z.clone() + p.clone() * beta;
@@ -522,6 +530,8 @@ impl Sparse<f64> {
                 r = b.clone() - self.multiply( x );
                 resid = r.norm_2() / normb;
                 if resid <= tol && Self::all_finite( x ) { return Ok( i ); }
+                // p is conjugate for the recurrence residual, not for this one: restart
+                fresh = true;
             }
             rho_1 = rho;
         }
